@@ -113,6 +113,12 @@ def _halves(ctx, path, valid, phi, what):
     # symbols handed out by the solver stub (model values m@k@...) are not auxiliaries: they denote the
     # values of the models found before the export, constrained by the contract facts of the path
     aux = [c for n, c in cp.items() if n not in cv and n not in pn and not n.startswith("m@")]
+    # first an explicit witness for the private constants (the two systems come out of the same code, so their
+    # fresh / uid-named constants line up by position): a quantifier-free query; if it does not close, the quantified one
+    if aux:
+        inst = formula.positional_witness(list(phi), aux, list(valid))
+        if inst is not None and formula.solve(base + list(valid) + [z3.Not(z3.And(inst))], 20000, want_model=False)[0] == "unsat":
+            return {"status": "unsat", "queries": 1, "note": "positional witness"}
     lost = formula.forall(aux, z3.Not(z3.And(phi)))
     v, m, _ = formula.solve_shrunk(base + list(valid) + [lost], 30000, quantified=bool(aux))
     if v == "unsat":
@@ -207,6 +213,31 @@ def replay_smt2(desc):
     if pa != pb_ and z3.unknown not in (pa, pb_):
         print("CONFIRMED: the exported SMT-LIB script and the problem's constraint system disagree on the witness schedule")
         return 1
+    # ... and by what solve() itself decides (the system of an initialised solver need not be what solve() checks)
+    def solves(with_pins):
+        with quiet(), warnings.catch_warnings():
+            warnings.simplefilter("ignore")
+            pb3, _ = c14.build_rich(engine.Params("conc", values=w["params"]), dict(c14.CANON), {}, variant)
+            if with_pins:
+                consts3, _ = formula.constants([a for c in pb3.constraints.values() for a in c.get_z3_assertions()] +
+                                               [a for t in pb3.tasks.values() for a in t.get_z3_assertions()] + list(pb3.get_z3_assertions()))
+                k = 0
+                for n, v in (w.get("pins") or {}).items():
+                    if "@" in n or "!" in n or n not in consts3:
+                        continue
+                    c = consts3[n]
+                    ps.ConstraintFromExpression(name=f"replay_pin_{k}", expression=(c == (z3.BoolVal(v) if isinstance(v, bool) else v)))
+                    k += 1
+            s3 = ps.SchedulingSolver(problem=pb3, **{k_: v_ for k_, v_ in cfg.items() if k_ != "max_iter"})
+            r = bool(s3.solve())
+        engine.reset_z3_globals()
+        return z3.sat if r else z3.unsat
+    for with_pins, ref in ((False, ra), (True, pa)):
+        got = solves(with_pins)
+        print(f"replay: solve() {'with the witness schedule pinned' if with_pins else 'on the problem'} -> {got}; exported script -> {ref}")
+        if ref != z3.unknown and got != ref:
+            print("CONFIRMED: solve() and the exported SMT-LIB script disagree" + (" on the witness schedule" if with_pins else " on satisfiability"))
+            return 1
     if returned:
         sched = []
         for n, t in returned.tasks.items():
